@@ -108,17 +108,19 @@ def emit_graph(module_file, cfg_text, ctx, name, timeout=1200, injective=True):
     return g, res
 
 
-def walk(g, adapter, ctx, name, max_nodes=200000, op_timeout=0.5, sig_fn=None, report_limit=40):
+def walk(g, adapter, ctx, name, max_nodes=200000, op_timeout=0.5, sig_fn=None, report_limit=40, paths_per_state=1):
     """Breadth-first walk of the real code over graph `g`.
 
     adapter.new_world() -> world ; adapter.apply(world, op) -> JSON-able result ; adapter.obs(world) -> JSON-able
-    adapter.close(world) optional.
+    adapter.close(world) optional.  `paths_per_state` > 1 drives the code into each abstract state along several
+    different operation paths (the implementation may keep history the abstract state does not have, e.g. the
+    arrival order inside a dict) and applies every operation after each of them.
     Returns statistics; violations go to ctx.violation.
     """
     init_obs, init_hid = g.init
     start = (init_obs, frozenset([init_hid]))
-    paths = {start: []}
-    queue = collections.deque([start])
+    paths = {start: [[]]}
+    queue = collections.deque([(start, 0)])
     checked = 0
     spec_states_hit = set()
     spec_edges_hit = 0
@@ -141,15 +143,16 @@ def walk(g, adapter, ctx, name, max_nodes=200000, op_timeout=0.5, sig_fn=None, r
                 closer(w)
 
     while queue:
-        node = queue.popleft()
+        node, pidx = queue.popleft()
         obs, hids = node
         for h in hids:
             spec_states_hit.add((obs, h))
-        path = paths[node]
+        path = paths[node][pidx]
         if any((obs, h) not in g.sources for h in hids):
             # a candidate lies beyond the bound of the exhaustive model (TLC did not expand it): nothing can be
             # judged from here without risking a false alarm
-            frontier += 1
+            if pidx == 0:
+                frontier += 1
             continue
         for opc in sorted(g.ops_at[obs]):
             # enabled in at least one candidate?
@@ -166,7 +169,7 @@ def walk(g, adapter, ctx, name, max_nodes=200000, op_timeout=0.5, sig_fn=None, r
                 skipped += 1
                 continue
             checked += 1
-            ctx.case((obs, opc))
+            ctx.case((obs, opc, pidx))
             if pre != obs:
                 raise tlc.MachineryError("%s: replaying a path did not reproduce the state (code not deterministic?) "
                                          "path=%s got=%s want=%s" % (name, path, pre, obs))
@@ -193,15 +196,20 @@ def walk(g, adapter, ctx, name, max_nodes=200000, op_timeout=0.5, sig_fn=None, r
                     return {"checked": checked, "nodes": len(paths), "aborted": True}
                 continue
             nxt = (post, frozenset(succ))
-            if nxt not in paths and len(paths) < max_nodes:
-                paths[nxt] = path + [op]
-                queue.append(nxt)
+            if nxt not in paths:
+                if len(paths) < max_nodes:
+                    paths[nxt] = [path + [op]]
+                    queue.append((nxt, 0))
+            elif len(paths[nxt]) < paths_per_state and nxt != node and (path + [op]) not in paths[nxt]:
+                paths[nxt].append(path + [op])
+                queue.append((nxt, len(paths[nxt]) - 1))
     stats = {"spec": name, "spec_states": len(g.states), "spec_edges": g.n_edges, "code_nodes": len(paths),
+             "paths_driven": sum(len(v) for v in paths.values()),
              "pairs_checked": checked, "spec_states_reached_by_code": len(spec_states_hit),
              "spec_edges_taken_by_code": spec_edges_hit, "frontier_nodes_not_expanded": frontier, "skipped_not_applicable": skipped}
     ctx.extra.setdefault("walks", []).append(stats)
     ctx.traces += checked
     if len(ctx.samples) < 4 and paths:
-        longest = max(paths.values(), key=len)
+        longest = max((p for v in paths.values() for p in v), key=len)
         ctx.sample({"walk": name, "path": longest})
     return stats
